@@ -166,3 +166,44 @@ def ctx_frame(ctx, old_ctx):
 def rctx_frame(ctx, old_ctx):
     """the reachability visitor's context object is not written to"""
     return {'frame_ctx_is_reachable': ctx.is_reachable == old_ctx.is_reachable}
+
+
+# -- tuple bindings: names(TupleBinding) = union of the names of its elements (recursively)
+
+def binds_prefix(pat, i, k):
+    """k is bound by one of the first i elements of the tuple binding"""
+    return ghost_pred('binds_prefix', pat, i, k)
+
+
+def binds_fold_def(pat):
+    """DEFINITION of binds_tuple(pat, .) as the fold over pat.elts (assumed as axioms)"""
+    n = seq_len(pat.elts)
+    return {
+        'binds_0': forall_keys('NamedId', lambda k: not binds_prefix(pat, 0, k)),
+        'binds_step': forall_ints(lambda i: implies(0 <= i and i < n, forall_keys('NamedId', lambda k:
+                                  binds_prefix(pat, i + 1, k) == (binds_prefix(pat, i, k) or kbinds(seq_at(pat.elts, i), k))))),
+        'binds_def': forall_keys('NamedId', lambda k: binds(pat, k) == binds_prefix(pat, n, k)),
+    }
+
+
+# -- the function: the body is checked in  ctx.env + free variables + named arguments
+
+def arg_prefix(func, i, k):
+    """k is the name of one of the first i arguments"""
+    return ghost_pred('arg_prefix', func, i, k)
+
+
+def arg_fold_def(func):
+    n = seq_len(func.args)
+    return {
+        'arg_0': forall_keys('NamedId', lambda k: not arg_prefix(func, 0, k)),
+        'arg_step': forall_ints(lambda i: implies(0 <= i and i < n, forall_keys('NamedId', lambda k:
+                                arg_prefix(func, i + 1, k) == (arg_prefix(func, i, k) or k == key_attr(seq_at(func.args, i), 'name'))))),
+    }
+
+
+def arg_names(func, k):
+    return arg_prefix(func, seq_len(func.args), k)
+
+
+C15X_KEY_ATTRS = {'Argument.name': 'Key[NamedId]'}
